@@ -1,4 +1,5 @@
 import AriesVerif.C17.Model
+import AriesVerif.C17.Cred
 import AriesVerif.Base.Util
 /-! C17 driver glue (format of harness/cmd/corr/c17.go). -/
 namespace Bbs.Drv
@@ -69,8 +70,56 @@ def predict (input : String) : Option Pred :=
       pure ⟨s!"sign=ok verifysig=ok derive=ok payload={hex} honest=ok neg={m}", sp, m⟩
   | _ => none
 
+/-- credential level (format of harness/cmd/corr/c17vc.go): (expected line, is the frame within the credential) -/
+def predictVC (input : String) : Option (String × Bool) :=
+  match input.splitOn "|" with
+  | [_, pS, proofs, sS, _, neg] =>
+    let present := pS.toList
+    let frame := if sS == "-" then [] else sS.toList
+    let nb := (proofs.toList.filter (· == 'b')).length
+    if nb == 0 then some ("derive=err", true)
+    else if !(frame.all (present.contains ·)) then
+      -- the frame names a member the credential lacks: json-gold's framing yields no subject, derivation is refused
+      let members := String.ofList (Cred.frameSelect present frame)
+      some (s!"derive=ok members={members} proofs={nb} types=ok verify=ok", false)
+    else
+      let members := Cred.frameSelect present frame
+      let negF := neg.splitOn ":"
+      let x : Char := ((negF.getD 1 "").toList.headD ' ')
+      let n : String :=
+        match negF.headD "" with
+        | "chg" => if members.contains x then "fail" else "na"
+        | "drop" => if members.contains x then "fail" else "na"
+        | "add" => if present.contains x && !members.contains x then "fail" else "na"
+        | "nonce" => "fail" | "key" => "fail" | "issuer" => "fail"
+        | "swap" => if nb ≥ 2 then "fail" else "na"
+        | _ => "na"
+      some (s!"derive=ok members={String.ofList members} proofs={nb} types=ok verify=ok neg={n}", true)
+  | _ => none
+
 /-- (model column, spec column, tags) -/
 def judge (input impl : String) : String × String × String :=
+  if input.startsWith "proof|" then
+    -- a recorded honest proof (corpus): completeness (`Algebra.lean`) says the verifier accepts it
+    (if impl == "verify=ok" then ("=", "=", "") else ("verify=ok", "HONEST-PROOF-NOT-ACCEPTED", ""))
+  else if input.startsWith "vc|" then
+    match predictVC input with
+    | none => ("bad-input", "bad-input", "")
+    | some (line, true) =>
+      if impl == line then ("=", "=", "")
+      else
+        let words := impl.splitOn " "
+        let what :=
+          if words.contains "verify=ok" && words.contains "neg=ok" then "ALTERED-DERIVED-CREDENTIAL-ACCEPTED"
+          else if (words.find? (·.startsWith "verify=fail")).isSome then "HONEST-DERIVED-CREDENTIAL-NOT-ACCEPTED"
+          else "derived credential differs: " ++ line
+        (line, what, "")
+    | some (okPrefix, false) =>
+      -- refusing is what the code does; a correct derivation would be within the property as well
+      if impl == "derive=err" then ("=", "=", "")
+      else if impl.startsWith okPrefix then ("derive=err", "=", "")
+      else ("derive=err", "derived credential differs: " ++ okPrefix, "")
+  else
   match predict input with
   | none => ("bad-input", "bad-input", "")
   | some p =>
